@@ -361,9 +361,13 @@ def run_task(task):
     eps = c12.entry_points(kind_, attr)
     eps["constructor"] = None
 
+    only_tag = task.get("only_tag")
+
     def record(bad, tag):
         res["evaluations"] += 1
-        if bad is not None and len(res["violations"]) < 40:
+        if only_tag is not None and tag != only_tag:
+            return
+        if bad is not None and (len(res["violations"]) < 40 or only_tag is not None):
             k, d = bad
             res["violations"].append({"signature": "%s|%s|%s|%s" % (PROPERTY, c, tag, k), "detail": d,
                                       "replay": {"engine": "c16", "module": __name__, "clsname": c, "tag": tag}})
@@ -403,5 +407,5 @@ def run_task(task):
 
 def replay(doc):
     env.lib()
-    r = run_task({"clsname": doc["clsname"], "tier": "thorough"})
+    r = run_task({"clsname": doc["clsname"], "tier": "thorough", "only_tag": doc["tag"]})
     return [(v["signature"].split("|")[-1], v["detail"]) for v in r["violations"] if v["replay"]["tag"] == doc["tag"]]
